@@ -298,9 +298,9 @@ const TAGS: &[&str] = &[
     "9999999999999999999", "10000000000000000000", "18446744073709551615", "18446744073709551616", "99999999999999999999",
     "10000000000000000000.-", "--", "10a", "1-", "--1", "000000000000000000001", "alpha.beta.gamma.delta.1.2.3.4.5",
     "1048576", "16777216.4294967296", "9007199254740992", "9007199254740993", "18446744073709551614", "9223372036854775807",
-    "9223372036854775808",
+    "9223372036854775808", "Z", "zZ9", "ABCXYZ", "20240101T000000Z", "Q.W.E.R.T.Y", "k-l-m",
 ];
-const BUILDS: &[&str] = &["build", "1", "b.7", "-", "exp.sha.5114f85", "7.7", "b.b", "b.1.b"];
+const BUILDS: &[&str] = &["build", "1", "b.7", "-", "exp.sha.5114f85", "7.7", "b.b", "b.1.b", "20240101T000000Z", "XYZ.0.Z"];
 
 /// a number text of random magnitude, sometimes zero-padded (also to more than 20 digits)
 fn wide_num_text(rng: &mut Rng) -> String {
@@ -357,7 +357,7 @@ fn gen_version_text(rng: &mut Rng) -> String {
 }
 
 fn edits(rng: &mut Rng, s: &str, n: usize) -> Vec<String> {
-    let alphabet: Vec<char> = "019.-+avVxX \té😀*<>=~^|\n".chars().collect();
+    let alphabet: Vec<char> = "019.-+avVxX \té😀*<>=~^|\n\rZzA_²٣½３Ⅷ".chars().collect();
     let chars: Vec<char> = s.chars().collect();
     let mut out = Vec::new();
     for _ in 0..n {
@@ -1087,6 +1087,15 @@ pub fn run_stream(name: &str, thorough: bool, rng: &mut Rng, o: &mut Out) {
             // `Range::any()` (the one public constructor besides parse) against every single interval
             // of the small chain and random unions, in both operand positions
             let any = try_range(crate::ANY).unwrap();
+            let probes: Vec<Version> = ["0.0.0", "0.0.0-0", "0.0.0-alpha", "1.2.3", "1.2.3-0", "1.2.3-rc.1+b", "900719925474099.0.0-x"]
+                .iter()
+                .map(|t| try_version(t).unwrap())
+                .collect();
+            for v in &probes {
+                o.sat(crate::ANY, &any, v);
+            }
+            o.minv(crate::ANY, &any);
+            o.maxmin(crate::ANY, &any, &probes);
             let base = parsed(intervals(&chain_small()));
             for (t, r) in &base {
                 o.setops(crate::ANY, &any, t, r);
@@ -1270,6 +1279,80 @@ pub fn run_stream(name: &str, thorough: bool, rng: &mut Rng, o: &mut Out) {
                             o.setops(&t1, &b1, &ta, &a);
                         }
                     }
+                }
+            }
+        }
+        "setops_giant" => {
+            // one operand with thousands of alternatives against small operands, with the *answers* judged
+            // (model + oracle on a sample of the bounds), not only the absence of a crash
+            for i in 0..(if thorough { 6 } else { 1 }) {
+                let n = if thorough { *rng.pick(&[3000usize, 7000, 12000]) } else { 1100 + rng.below(300) };
+                let stride = 2 + (i % 2) as u64;
+                let ta = (0..n as u64)
+                    .map(|k| {
+                        let lo = k * stride;
+                        match k % 5 {
+                            0 => format!("{}.0.0", lo),
+                            1 => format!(">={}.0.0 <{}.0.0", lo, lo + 1),
+                            2 => format!(">{}.0.0-rc <={}.5.0", lo, lo),
+                            3 => format!("~{}.3", lo),
+                            _ => format!(">={}.0.0 <={}.0.0", lo, lo + stride),
+                        }
+                    })
+                    .collect::<Vec<_>>();
+                let mut alts = ta;
+                // sometimes a wide alternative that covers many of the others, and not always ascending
+                if i == 0 || rng.chance(1, 2) {
+                    alts.push(format!(">={}.0.0 <{}.0.0", stride * 3, (n as u64 * stride) / 2));
+                }
+                match rng.below(3) {
+                    0 => alts.reverse(),
+                    1 => {
+                        for j in (1..alts.len()).rev() {
+                            let k = rng.below(j + 1);
+                            alts.swap(j, k);
+                        }
+                    }
+                    _ => {}
+                }
+                let ta = alts.join("||");
+                let Ok(a) = try_range(&ta) else { continue };
+                let top = n as u64 * stride;
+                let k = (rng.below(n) as u64) * stride;
+                for tb in [
+                    "*".to_string(),
+                    format!(">={}.0.0", top + 5),
+                    format!("<{}.0.0", k),
+                    format!(">={}.0.0 <{}.0.0", k, k + 3 * stride),
+                    format!(">={}.7.0 <{}.8.0", stride * 5, stride * 5),
+                    format!("{}.0.0 || {}.0.0-rc.1 || >{}.2.0 <{}.4.0", k, k + stride, k, k),
+                    format!("<=0.0.0 || >={}.0.0", top - stride),
+                ] {
+                    if let Ok(b) = try_range(&tb) {
+                        o.setops(&ta, &a, &tb, &b);
+                        o.setops(&tb, &b, &ta, &a);
+                    }
+                }
+                // both operands large (quick: about 10^5 pairs of alternatives, thorough: about 10^6), one of
+                // them with a wide alternative that covers many narrow ones of the other
+                let m = if thorough { 1000 } else { 300 };
+                // (the narrow alternatives of the two operands never coincide: minor 1 against minor 0)
+                let tc = std::iter::once(format!(">={}.0.0 <{}.0.0", stride, top / 2))
+                    .chain((1..m as u64).map(|j| format!("{}.1.{}", top / 4 + (j % 7), j)))
+                    .collect::<Vec<_>>()
+                    .join("||");
+                // … and every narrow alternative of the first lies below every alternative of the second, so that
+                // only the wide one overlaps them
+                let td = (1..=m as u64).map(|j| format!("{}.0.{}", top / 4 + 10 + (j % 5), j)).collect::<Vec<_>>().join("||");
+                if let (Ok(c), Ok(d)) = (try_range(&tc), try_range(&td)) {
+                    o.setops(&tc, &c, &td, &d);
+                    o.setops(&td, &d, &tc, &c);
+                }
+                o.minv(&ta, &a);
+                let vs: Vec<Version> = [k, k + 1, top, 0, top + 9].iter().map(|m| Version::from((*m, 2u64, 0u64))).collect();
+                o.maxmin(&ta, &a, &vs);
+                for v in &vs {
+                    o.sat(&ta, &a, v);
                 }
             }
         }
